@@ -124,6 +124,9 @@ SubstList(s, v0) ==
       items == v.items
   IN
   IF Len(items) > 0 /\ \A i \in DOMAIN items : IsEll(items[i]) THEN SErr("SubstitutionError")
+  ELSE IF IsNone(s.elems) /\ IsNone(s.type) /\ ~DEV_PlaceholderBetweenElements
+          /\ \E i \in DOMAIN items : IsEll(items[i]) /\ 1 < i /\ i < Len(items)
+  THEN SErr("SubstitutionError")             \* `...` must be first or last element
   ELSE IF IsNone(s.elems) /\ IsNone(s.type)
   THEN LET r == SubFromNativeAll(items, 1, <<>>)
        IN  IF r.ok THEN SOk([s EXCEPT !.elems = Some(r.s)]) ELSE r
@@ -153,6 +156,8 @@ SubstList(s, v0) ==
 RECURSIVE SubNativePairs(_, _, _)
 SubNativePairs(pairs, i, acc) ==
   IF i > Len(pairs) THEN SOk(acc)
+  ELSE IF IsEll(pairs[i].val) /\ ~IsEll(pairs[i].key) /\ ~DEV_PlaceholderUnderUndeclaredKey
+       THEN SErr("SubstitutionError")        \* nothing is declared for the placeholder to stand for
   ELSE IF IsEll(pairs[i].val) THEN SubNativePairs(pairs, i + 1, KeysPut(acc, DKey(pairs[i].key, VEllipsis, FALSE)))
   ELSE LET r == SubFromNative(pairs[i].val)
        IN  IF r.ok THEN SubNativePairs(pairs, i + 1, KeysPut(acc, DKey(pairs[i].key, r.s, FALSE))) ELSE r
